@@ -320,25 +320,54 @@ func (w *sideWorld) project() sideProj {
 // are spread over two metric names and every sample has its own label set, so that label
 // leakage between rows would change the counts.
 func payload(kept, total int, seed int64) []byte {
-	var b strings.Builder
-	b.WriteString("# HELP m_a test metric\n# TYPE m_a gauge\n")
+	// samples that metric relabeling drops carry drop="1"; they come before, between and after the kept ones, and the
+	// number of labels varies from sample to sample (none, one, two, three), so that whatever is remembered from one
+	// sample to the next shows
+	var keptL, dropL []string
 	n := 0
 	for i := 0; i < kept; i++ {
 		name := "m_a"
 		if i%2 == 1 {
 			name = "m_b"
 		}
-		fmt.Fprintf(&b, "%s{idx=\"%d\",keep=\"yes\"} %d\n", name, n, i+1)
+		switch (i + int(seed)) % 3 {
+		case 0:
+			keptL = append(keptL, fmt.Sprintf("%s{idx=\"%d\",keep=\"yes\"} %d\n", name, n, i+1))
+		case 1:
+			keptL = append(keptL, fmt.Sprintf("%s{idx=\"%d\"} %d\n", name, n, i+1))
+		default:
+			if i < 2 {
+				keptL = append(keptL, fmt.Sprintf("%s %d\n", name, i+1)) // at most one sample without labels per metric name
+			} else {
+				keptL = append(keptL, fmt.Sprintf("%s{idx=\"%d\"} %d\n", name, n, i+1))
+			}
+		}
 		n++
 	}
-	b.WriteString("\n# a comment line\n")
 	for i := 0; i < total-kept; i++ {
 		name := "m_b"
 		if i%2 == 1 {
 			name = "m_a"
 		}
-		fmt.Fprintf(&b, "%s{idx=\"%d\",drop=\"1\"} %d\n", name, n, i+1)
+		if (i+int(seed))%2 == 0 {
+			dropL = append(dropL, fmt.Sprintf("%s{idx=\"%d\",drop=\"1\"} %d\n", name, n, i+1))
+		} else {
+			dropL = append(dropL, fmt.Sprintf("%s{az=\"z\",idx=\"%d\",drop=\"1\"} %d\n", name, n, i+1))
+		}
 		n++
+	}
+	var b strings.Builder
+	b.WriteString("# HELP m_a test metric\n# TYPE m_a gauge\n")
+	for i := 0; i < len(keptL) || i < len(dropL); i++ {
+		if i < len(dropL) {
+			b.WriteString(dropL[i])
+		}
+		if i == 1 {
+			b.WriteString("\n# a comment line\n")
+		}
+		if i < len(keptL) {
+			b.WriteString(keptL[i])
+		}
 	}
 	return []byte(b.String())
 }
